@@ -9,35 +9,35 @@ E2 = "explicit-state exploration of operation histories on live objects (engine 
 
 CHECKS = [
     # id, level, technique, text, note, design section
-    ("C01", "exploration", "exhaustive enumeration of schemas x instances vs. an independent reference evaluator",
+    ("C01", "exploration", "exhaustive enumeration of schemas x instances (incl. integers beyond the double range) vs. an independent reference evaluator",
      "No (schema, instance, draft) within the stated grammar and universe bounds gets a verdict different from the "
      "specification as written down in mc/ref/spec.py: all single keywords, ALL ordered keyword pairs, sibling-group "
      "products, nesting depth 2 and arity 3, against every JSON type.  A bounded-exhaustive statement, not a sample.",
      "trusts the reference evaluator (validated against the official suite in selftest) and the small-scope hypothesis; "
      "regexes limited to a predicate table; float multipleOf only on exact operands", "5 C01"),
-    ("C05", "exploration", "exhaustive enumeration; per-keyword decomposition (implementation vs itself) + location-multiset comparison with the reference evaluator",
+    ("C05", "exploration", "exhaustive enumeration (reference-free grammar, and sibling slots whose subschemas are $refs into the same / a store document); per-keyword decomposition (implementation vs itself) + location-multiset comparison with the reference evaluator",
      "For every schema of the grammar with its instance universe, the errors attributed to each keyword equal the errors the "
      "keyword yields alone with its consulted siblings (full identity incl. message, paths, values, context), and the "
      "multiset of error locations equals the reference's one-error-per-violation expectation.",
      "decomposition needs no oracle; counting trusts mc/ref/spec.py; bounded grammar and universe", "5 C05"),
-    ("C06", "exploration", "exhaustive enumeration; per-error invariants (paths, keyword, value, parent, json_path) and reference locations",
+    ("C06", "exploration", "exhaustive enumeration; per-error invariants (paths, keyword, value, parent, json_path) and reference locations, re-checked on context errors and the best_match error after their parents were dropped",
      "Every error and context error produced over G x U_d satisfies the location invariants: the instance path reaches the "
      "recorded instance, the schema path (hopping through references) reaches the recorded keyword value inside the recorded "
      "schema, absolute = parent + relative, json_path renders the path; locations equal the reference evaluator's.",
      "documented exceptions (draft 3 required, propertyNames, false schema) modelled explicitly; bounded grammar", "5 C06"),
-    ("C03", "exploration", "exhaustive enumeration of metaschema-accepted hostile schemas x instances x entry points; oracle = set of exception types allowed to escape, 5 s watchdog",
+    ("C03", "exploration", "exhaustive enumeration of metaschema-accepted hostile schemas x instances x entry points, all call sequences (depth 2-3) on one reused validator, 30-deep applicator chains; oracle = set of exception types allowed to escape, 5 s watchdog",
      "Every {keyword: w} over a 60-value hostile universe (anything the metaschema might let through) and the sibling-group "
      "products, alone and at every subschema position, that the real check_schema accepts, validated against a hostile "
      "instance universe through all four entry points: nothing but ValidationError / RefResolutionError / (Draft 3) "
      "UnknownType escapes and nothing runs longer than the watchdog.",
      "5 s watchdog stands for non-termination; instance nesting kept below the interpreter's recursion limit; one open known finding (in-place reference cycles)", "5 C03"),
-    ("C04", "exploration", "exhaustive enumeration; metamorphic relations between the implementation's own entry points",
+    ("C04", "exploration", "exhaustive enumeration; metamorphic relations between the implementation's own entry points, every order of entry-point calls (sessions, depth 2-3) on one validator object vs. a new object, rejected schemas after the same object was accepted elsewhere / edited in place",
      "On every enumerated (schema, instance, draft, class selection, format checker) the four entry points agree as the "
      "property states, validate() raises the first error, module validate() raises best_match (a top-level or context-free "
      "descendant error), invalid schemas raise the metaschema's first violation as SchemaError before the instance is "
      "touched (trip-wire instance), and repeating any call gives identical results.",
      "relations between runs of the implementation: no external oracle; bounded grammar", "5 C04"),
-    ("C08", "exploration", "exhaustive enumeration of ordered value pairs and arrays vs. a canonical-form equality model + three-way agreement",
+    ("C08", "exploration", "exhaustive enumeration of ordered value pairs and arrays (plain, OrderedDict-loaded, through one long-lived validator with a new schema object per call) vs. a canonical-form equality model + three-way agreement",
      "All ordered pairs of a 736-value JSON universe (depth <= 2) through const / enum / uniqueItems in every draft, and all "
      "length-3 arrays over a 40-value mixed universe, agree with exact JSON equality and with each other.",
      "type-tagged canonical form with Fractions as the model; strings limited to four atoms", "5 C08"),
@@ -46,7 +46,7 @@ CHECKS = [
      "integers up to thousands of digits, for every numeric keyword form of every draft: bounds always equal the Fraction "
      "verdict; multipleOf equals it on the exact sub-domain the property defines; nothing raises.",
      "integers beyond CPython's 4300-digit str limit are outside the bound (their repr in an error message raises)", "5 C09"),
-    ("C11", "exploration", "exhaustive enumeration of candidate schemas vs. the reference evaluator applied to the metaschema file",
+    ("C11", "exploration", "exhaustive enumeration of candidate schemas (hostile values, non-finite numbers, must-be-unique unions, type confusions) vs. the reference evaluator applied to the metaschema file; explicit exploration of dialect-registration histories and of preemption-bounded thread schedules of concurrent check_schema calls",
      "check_schema of each draft class returns exactly when an independent evaluator says the candidate satisfies the "
      "bundled metaschema file, and raises only SchemaError, over every hostile {keyword: value} at every subschema position "
      "(55k candidates per draft in the quick tier); each metaschema is accepted by its own class.",
@@ -69,12 +69,12 @@ CHECKS = [
      "equals a fresh validator doing only that operation, and the scope stack, schema, store documents and instance are "
      "unchanged afterwards.",
      "relies on CPython reference counting for dropped iterators (the property's premise); canonical state argued in DESIGN 3.4; re-entrancy while an iterator is suspended is not claimed", "5 C07"),
-    ("C12", "exploration", "exhaustive enumeration of the finite product names x instances x checker configurations x drafts vs. a model of the documented semantics",
+    ("C12", "exploration", "exhaustive enumeration of the finite product names x instances (JSON and non-JSON Python values) x checker configurations (75 exception classes, overridden checker objects) x drafts vs. a model of the documented semantics; all depth-3 operation histories on one checker and interleavings over several checkers, each in an isolated process",
      "The complete product of format names, instances of every JSON type, 230 checker configurations (none, default, "
      "subsets, draft checkers, custom functions returning every truthiness / raising listed, sub-classed and unlisted "
      "exceptions) and four drafts behaves as the 15-line model of the documented format semantics, including cause identity.",
      "custom checkers registered on fresh instances only; class-wide registry asserted unchanged", "5 C12"),
-    ("C13", "exploration", "exhaustive enumeration of all short strings and all single edits of seeds per format vs. hand-written recognisers",
+    ("C13", "exploration", "exhaustive enumeration of all short strings and all single edits of seeds per format (str and str-subclass) vs. hand-written recognisers; all depth-3 interleavings over lax / strict custom and stock checker objects",
      "Every string up to length 4-7 over a per-format alphabet, a full date grid and every single edit of ~20 seeds per format "
      "(600k strings, 6.8M observations): ipv4 / ipv6 / date / email agree with hand-written recognisers, regex agrees with "
      "re.compile, and for every registered format conforms() returns a bool and check() raises only FormatError.",
@@ -105,7 +105,7 @@ CHECKS = [
      "(missing key, index = len, -, -1, 01, +1, ' 1', 1_0, 1.0, non-ASCII digits, any token on scalars and strings) raises "
      "RefResolutionError and nothing else.",
      "mc/ref/pointer.py written from the RFCs; documents deeper than 3 outside the bound", "5 C14"),
-    ("C17", "exploration", "exhaustive enumeration of error collections in every arrival order vs. an independent path trie",
+    ("C17", "exploration", "exhaustive enumeration of error collections in every arrival order vs. an independent path trie; every sequence of <= 2 lookups at every node followed by membership / iteration / totals",
      "For every error collection produced by singles + all ordered pairs (+ sibling groups) x U_d x 4 drafts, in EVERY arrival "
      "order (<= 5 errors; rotations + reversal above), ErrorTree construction does not raise, every error is found where its "
      "path says, membership/iteration/total_errors/len agree with a path trie, and indexing an existing error-free element "
